@@ -82,17 +82,7 @@ impl VelocityControl {
 //@end
 
 //@fn vls-core/src/util/velocity.rs :: impl VelocityControl :: insert props=C12,C10
-    requires
-        vc_wf(*old(self)),
-        current_sec >= old(self).start_sec,          // property quantifier: non-decreasing timestamps
-    ensures
-        vc_abs(*final(self)) == vc_step(vc_abs(*old(self)), current_sec, velocity_msat),           //[C12.insert.step]
-        r == vc_accepts(vc_abs(*old(self)), current_sec, velocity_msat),                   //[C12.insert.accept]
-        // the headline bound: whatever is accepted keeps the tracked sum within the limit
-        r && old(self).limit < u64::MAX ==> vsum(final(self).buckets@) <= old(self).limit,   //[C12.insert.bound]
-        // a refused amount is not counted anywhere (C10: only time has advanced)
-        !r ==> final(self).buckets@ == vc_shifted(vc_abs(*old(self)), current_sec),        //[C10.velocity.refused-not-counted]
-        vc_wf(*final(self)),
+//@include frag/c/vc_insert.rs
 //@loop 1 iter=it
         invariant
             self.buckets@ == zeros(it.index@ as nat) + old(self).buckets@.take(len - nshift),
